@@ -163,6 +163,9 @@ def run(ctx, mutate=None, judge_extra=None):
     if ths is None:
         finish(ctx, [])
     b64cov = base64_stage(ctx, ths) if not (mutate or judge_extra) else {}
+    if not (mutate or judge_extra):
+        from props import c04
+        b64cov.update(c04.chararr_stage(ctx, ths))
     flatcc, _ = build_flatcc(ctx)
     # C04 (mutated inputs) runs the deployed configuration: asserts compiled out, so that e.g. a duplicate key is the
     # parser's runtime error instead of the builder's `check(0, "table field already set")` abort
